@@ -156,7 +156,7 @@ func diffMap(old map[string]interface{}, newAny interface{}) interface{} {
 	}
 
 	// Assert that the __key fields, if present, are equal.
-	if old["__key"] != new["__key"] {
+	if comparableKey(old["__key"]) != comparableKey(new["__key"]) {
 		return markReplaced(new)
 	}
 
@@ -188,6 +188,18 @@ func diffMap(old map[string]interface{}, newAny interface{}) interface{} {
 	return d
 }
 
+// comparableKey makes a __key usable with == and as a map key: a key field may
+// be a byte string (a binary id), which Go can neither compare nor hash.
+func comparableKey(key interface{}) interface{} {
+	if b, ok := key.([]byte); ok {
+		return string(b)
+	}
+	if key != nil && !reflect.TypeOf(key).Comparable() {
+		return fmt.Sprintf("%#v", key)
+	}
+	return key
+}
+
 // reoderKey returns the key to use for a
 func reorderKey(i interface{}) interface{} {
 	if i == nil {
@@ -195,7 +207,7 @@ func reorderKey(i interface{}) interface{} {
 	}
 	if object, ok := i.(map[string]interface{}); ok {
 		if key, ok := object["__key"]; ok {
-			return key
+			return comparableKey(key)
 		}
 	}
 
